@@ -24,7 +24,7 @@ BUDGET = {"quick": (16, 220), "thorough": (16, 6000)}
 
 @st.composite
 def _strategy(draw):
-    flavour = draw(st.sampled_from(["plain", "plain", "links", "links", "multires", "mods"]))
+    flavour = draw(st.sampled_from(["plain", "plain", "links", "links", "multires", "mods", "mods"]))
     if flavour == "plain":
         spec = draw(gp.case(with_links=False, allow_dangling=False, resname_mismatch=True))
     elif flavour == "links":
